@@ -582,6 +582,11 @@ func (c *Ctx) g8WritersByKind(rule string, funcs []*ssa.Function, owner string, 
 		if _, ok := allow[w.Kind][fnName(topFunc(w.Fn))]; ok && w.Fn != topFunc(w.Fn) {
 			continue
 		}
+		// a block of a tabled writer extracted into an unexported helper that only tabled writers call
+		if kind := allow[w.Kind]; len(kind) > 0 && fix5PartOfTabled(funcs, w.Fn, func(n string) bool { _, ok := kind[n]; return ok }, 1) {
+			c.Funcs[topFunc(w.Fn).String()] = true
+			continue
+		}
 		k := owner + "." + f.Name() + ":" + w.Kind + "<-" + fnm
 		if seen[k] {
 			continue
@@ -606,6 +611,12 @@ func (c *Ctx) g8Callers(rule string, funcs []*ssa.Function, what string, allow m
 		n := fnName(s.Fn)
 		if _, ok := allow[n]; !ok {
 			if _, ok2 := allow[fnName(topFunc(s.Fn))]; !ok2 {
+				// a block of a tabled caller extracted into an unexported helper that only tabled callers call
+				if s.Kind == "call" && len(allow) > 0 && fix5PartOfTabled(funcs, s.Fn, func(n string) bool { _, ok := allow[n]; return ok }, 1) {
+					c.Funcs[topFunc(s.Fn).String()] = true
+					kept = append(kept, s)
+					continue
+				}
 				bad++
 				c.Bad(rule, what+"<-"+n, c.instrPos(s.Instr), fmt.Sprintf("%s of %s from a function outside the table", s.Kind, what))
 				continue
